@@ -80,13 +80,13 @@ muts=[
 		}
 		ncc := c.redirectOrNew(addr, cc, cmd.Slot(), mode)
 	recover1:"""),
- ("C20","batch-ask-sent-without-asking","cluster.go","""			if mode == RedirectAsk {
-				nr.aIndexes = append(nr.aIndexes, ii)
-				nr.cAskings = append(nr.cAskings, cm)
-			} else {""","""			if mode == RedirectAsk && hasInit {
-				nr.aIndexes = append(nr.aIndexes, ii)
-				nr.cAskings = append(nr.cAskings, cm)
-			} else {"""),
+ ("C20","batch-ask-sent-without-asking","cluster.go","""				retries.m[nc] = nr
+			}
+			if mode == RedirectAsk {
+				nr.aIndexes = append(nr.aIndexes, ii)""","""				retries.m[nc] = nr
+			}
+			if mode == RedirectAsk && hasInit {
+				nr.aIndexes = append(nr.aIndexes, ii)"""),
  ("C16","asint64-base-autodetect","message.go","""	return strconv.ParseInt(v, 10, 64)
 }
 
